@@ -19,6 +19,8 @@ SameAsLast == last.sc = sc /\ "dontcare" \notin Expect(sc).res =>
                 Cur.ok = last.ok /\ Cur.code = last.code /\ Cur.out = last.out /\ After = last.after
 \* C09: one message may not make the receiver allocate much more than the limit
 Bounded == ("bomb" \in DOMAIN sc /\ sc.bomb /\ sc.limit > 0) => Cur.alloc_kb <= (sc.limit \div 128) + 8192
+\* C14: once a client's Receive has reported the end of the stream or an error it keeps reporting one
+StickyEnd == sc.side = "client" => \A i \in 1..Len(After) : After[i] < 0
 Remember == last' = [sc |-> sc, ok |-> Cur.ok, code |-> Cur.code, out |-> Cur.out, after |-> After]
 
 TraceInit == /\ l = 1 /\ failed = FALSE /\ InitWith(Blank) /\ last = NoLast
@@ -44,7 +46,7 @@ TDoneStream ==
   /\ (RLimit \/ RStop \/ REnd \/ RRaw)
   /\ Match(Cur.ok, Cur.code, res')
   /\ (res' # "dontcare" => out' = Cur.out)
-  /\ SameAsLast /\ Remember /\ Bounded
+  /\ SameAsLast /\ Remember /\ Bounded /\ StickyEnd
 
 \* unary-shaped APIs are judged against the whole-wire oracle
 ClientUnaryOK(e) == \E c \in e.res : UnaryOK(e.out, c)
